@@ -86,11 +86,17 @@ class Center:
         else:
             res = self.offset
 
+        origin = self.orientation
+
         if hasattr(res, "form"):
             # StateVector : the offset is its cartesian coordinates, whatever its form
             res = res.copy(form="cartesian")
+            # expressed along the axes of its own frame : a propagator may answer in
+            # another frame than the one the orbit was given in (KeplerNum integrates
+            # in the frame of its body)
+            origin = res.frame.orientation
 
-        return self.orientation.convert_to(date, orientation) @ res
+        return origin.convert_to(date, orientation) @ res
 
 
 Earth = Center("Earth", body=constants.Earth)
